@@ -1,2 +1,8 @@
 #!/bin/sh
-exit 0
+# Builds the VC generator from files under /verif only (x/tools is vendored).
+set -e
+cd "$(dirname "$0")/engine"
+export GOFLAGS=-mod=vendor GOPROXY=off GOSUMDB=off GOTOOLCHAIN=local
+mkdir -p ../bin
+go build -o ../bin/govc .
+echo "govc built"
